@@ -9,18 +9,104 @@ ID = "C02"
 LEVEL = "exploration"
 TECHNIQUE = "runtime monitor: incarnation-id reference model vs ==/hash()/is_running() over generated histories with clock steps; live kernel: real children, zombie, a really recycled pid"
 RULE = ("live part: objects of every origin for real children (equal/hash/is_running while running and as a zombie, unequal across processes, False ever after the reap, unequal to the newcomer once vlib.livereuse made the kernel recycle the pid). one case = one history (spawn/exit/reap/reuse, clock_step(+-d) rewriting btime in /proc/stat, boot_time(), "
-        "process_iter(), create_time(), is_running()) with Process objects created at arbitrary points; every pair of "
+        "process_iter(), create_time(), is_running(), sys(<any other public system-wide psutil call: cpu_stats, cpu_times, "
+        "virtual_memory, net_io_counters, disk_io_counters, users, sensors_*, cpu_count, cpu_freq ...>)) with Process objects created at arbitrary points; every pair of "
         "objects is compared (==, !=, hash) and is_running() of every object is checked at the end and wherever the "
         "history asks. all valid histories to depth D over a 14-op alphabet are enumerated, plus random histories over "
-        "4 pids. non-trivial = a clock step or a pid re-use lies between the creation of two compared objects, or "
+        "4 pids, plus - for every one of the system-wide calls - all histories to depth 4 over the 8-op alphabet {new, step+, "
+        "step-, boot, sys(call), isrun, iter, clear} that hold both a clock step and the call. non-trivial = a clock step or a pid re-use lies between the creation of two compared objects, or "
         "is_running() is asked of an object whose process has exited; distinct by history hash")
 ASSUMPTIONS = [
     "identity is (pid, process start); start ticks of two incarnations of one pid always differ (no same-tick reuse)",
     "a clock step is modelled as the kernel changing 'btime' in /proc/stat (what settimeofday/NTP steps do)",
     "clock steps are chosen so that no two different incarnations of a pid ever get the same epoch start time",
 ]
-REQUIRED_COUNTERS = ["pairs_compared", "is_running_checked", "fresh_interpreter_histories"]
+REQUIRED_COUNTERS = ["pairs_compared", "is_running_checked", "fresh_interpreter_histories", "system_wide_calls_interleaved"]
 PID = 7
+
+# "... not on boot_time() or any other psutil call made in between": the public system-wide calls a monitoring program makes
+# next to its Process objects. Each is an op ("sys", name) of a history; none of them may move an identity answer.
+SYS_CALLS = {
+    "cpu_stats": lambda ps: ps.cpu_stats(),
+    "cpu_times": lambda ps: ps.cpu_times(),
+    "cpu_times_percpu": lambda ps: ps.cpu_times(percpu=True),
+    "cpu_percent": lambda ps: ps.cpu_percent(interval=None),
+    "cpu_percent_percpu": lambda ps: ps.cpu_percent(interval=None, percpu=True),
+    "cpu_times_percent": lambda ps: ps.cpu_times_percent(interval=None),
+    "cpu_count": lambda ps: ps.cpu_count(),
+    "cpu_count_cores": lambda ps: ps.cpu_count(logical=False),
+    "cpu_freq": lambda ps: ps.cpu_freq(percpu=True),
+    "getloadavg": lambda ps: ps.getloadavg(),
+    "virtual_memory": lambda ps: ps.virtual_memory(),
+    "swap_memory": lambda ps: ps.swap_memory(),
+    "disk_io_counters": lambda ps: ps.disk_io_counters(perdisk=True),
+    "disk_usage": lambda ps: ps.disk_usage("/"),
+    "net_io_counters": lambda ps: ps.net_io_counters(pernic=True),
+    "net_if_stats": lambda ps: ps.net_if_stats(),
+    "net_if_addrs": lambda ps: ps.net_if_addrs(),
+    "net_connections": lambda ps: ps.net_connections(kind="inet"),
+    "users": lambda ps: ps.users(),
+    "sensors_temperatures": lambda ps: ps.sensors_temperatures(),
+    "sensors_fans": lambda ps: ps.sensors_fans(),
+    "sensors_battery": lambda ps: ps.sensors_battery(),
+    "pids": lambda ps: ps.pids(),
+    "pid_exists": lambda ps: ps.pid_exists(1),
+    "wait_procs": lambda ps: ps.wait_procs([], timeout=0),
+}
+# (process_iter() is not in the table: it hands out objects, which the model has to see - that is the "iter" op)
+SYS_NAMES = sorted(SYS_CALLS)
+# what the simulated machine's /proc shows to those calls (next to stat, meminfo, net/* of vlib.histories.World)
+SYS_ROOTFILES = {
+    "net/dev": (b"Inter-|   Receive                                                |  Transmit\n"
+                b" face |bytes    packets errs drop fifo frame compressed multicast|bytes    packets errs drop fifo colls carrier compressed\n"
+                b"    lo: 1000 10 0 0 0 0 0 0 1000 10 0 0 0 0 0 0\n"
+                b"  eth0: 5000 50 0 0 0 0 0 0 7000 70 0 0 0 0 0 0\n"),
+    "cpuinfo": b"".join(b"processor\t: %d\ncpu MHz\t\t: 2400.000\nphysical id\t: 0\ncore id\t\t: %d\ncpu cores\t: 4\n\n" % (i, i)
+                        for i in range(4)),
+    "vmstat": b"nr_free_pages 2000000\npgpgin 1000\npgpgout 2000\npswpin 3\npswpout 4\n",
+    "diskstats": (b" 254       0 vda 1000 10 80000 500 2000 20 160000 900 0 700 1400 0 0 0 0 0 0\n"
+                  b" 254       1 vda1 900 9 70000 400 1900 19 150000 800 0 600 1200 0 0 0 0 0 0\n"),
+    "uptime": b"12345.67 40000.00\n",
+    "loadavg": b"0.10 0.20 0.30 1/100 4242\n",
+}
+
+
+def sys_op(w, op):
+    """("sys", name): one of SYS_CALLS made by the program between its other steps (same book-keeping as World.apply)."""
+    w.tick += 1
+    ev0 = len(w.vk.events)
+    br0 = len(w.vk.breaches)
+    rec = dict(op=list(op), tick=w.tick)
+    fn = SYS_CALLS[op[1]]
+    rec["res"] = w._call(lambda: fn(w.ps))
+    rec["events"] = [list(e) for e in w.vk.events[ev0:]]
+    rec["breaches"] = [list(b) for b in w.vk.breaches[br0:]]
+    w.records.append(rec)
+    return rec
+
+
+def sys_alphabet(name):
+    return [("new", PID), ("step", 300), ("step", -300), ("boot",), ("sys", name), ("isrun", 0), ("iter", "keep"), ("clear",)]
+
+
+def enum_sys_histories(depth):
+    """For every system-wide call: all histories to `depth` over sys_alphabet(call) in which both a clock step and the call
+    occur (the rest is part of enum_histories already), behind one live process and one object made for it."""
+    prefix = [("spawn", PID, False), ("new", PID)]
+    out = []
+    for name in SYS_NAMES:
+        alpha = sys_alphabet(name)
+
+        def rec(hist, st, d):
+            if any(o[0] == "step" for o in hist) and any(o[0] == "sys" for o in hist):
+                out.append(prefix + hist + [("cmp",)])
+            if d == 0:
+                return
+            for op in alpha:
+                if valid(op, st):
+                    rec(hist + [op], step(op, st), d - 1)
+        rec([], dict(state="live", nh=1, steps=0), depth)
+    return out
 
 
 def alphabet():
@@ -126,6 +212,9 @@ def gen_random(rng):
         elif r < 0.77:
             hist.append(("iter", "keep") if rng.random() < 0.6 else ("iter",))
             nh += sum(1 for q in pids if state[q] != "free")
+        elif r >= 0.97:
+            # any other psutil call in between: the system-wide numbers a monitor samples next to its processes
+            hist.append(("sys", rng.choice(SYS_NAMES)))
         elif nh == 0:
             continue
         elif r < 0.88:
@@ -148,7 +237,7 @@ def setup():
     return _env
 
 
-FOREIGN_OPS = {"spawn", "exit", "reap", "vanish", "new", "isrun", "q", "iter", "step", "boot", "clear", "wait", "cmp", "visit", "pids"}
+FOREIGN_OPS = {"spawn", "exit", "reap", "vanish", "new", "isrun", "q", "iter", "step", "boot", "clear", "wait", "cmp", "visit", "pids", "sys"}
 
 
 def foreign_variant(hist, rng):
@@ -167,12 +256,17 @@ def foreign_variant(hist, rng):
     return out
 
 
-def run_history(hist, acc, prime=True, foreign=False):
+def run_history(hist, acc, prime=True, foreign=False, blame=True):
     env = setup()
     H = env["H"]
     viols = []
     nontrivial = False
     w = H.World(env["ps"], prime=prime)
+    w.t.rootfiles.update(SYS_ROOTFILES)
+    w.tB.rootfiles.update(SYS_ROOTFILES)
+    sys_names = sorted({o[1] for o in hist if o[0] == "sys"})
+    if sys_names and any(o[0] == "step" for o in hist):
+        acc.count("histories_with_a_clock_step_and_a_system_wide_call")
     if foreign:
         w.t.foreign = True
         acc.count("histories_on_a_foreign_procfs")
@@ -183,17 +277,28 @@ def run_history(hist, acc, prime=True, foreign=False):
     other_threads = harness.chash([list(o) for o in hist])[-1] in "012" and any(o[0] == "step" for o in hist)
     stepped_yet = [False]
 
+    def do(op_):
+        if op_[0] != "sys":
+            return w.apply(op_)
+        rec_ = sys_op(w, op_)
+        acc.count("system_wide_calls_interleaved")
+        if rec_["res"][0] != "ok":
+            # whether that call works is not C02's business (and no reason to stop): noted, the history goes on
+            acc.count("system_wide_calls_that_raised")
+            acc.extra.setdefault("system_wide_calls_that_raised", {}).setdefault(op_[1], str(rec_["res"])[:200])
+        return rec_
+
     def apply(op_):
         if op_[0] == "step":
             stepped_yet[0] = True
         if not (other_threads and stepped_yet[0]) or op_[0] in ("step", "spawn", "exit", "reap", "vanish", "epoch0", "thread", "fault"):
-            return w.apply(op_)
+            return do(op_)
         import threading
         box = {}
 
         def run():
             try:
-                box["rec"] = w.apply(op_)
+                box["rec"] = do(op_)
             except BaseException as e:  # noqa: BLE001
                 box["exc"] = e
         th = threading.Thread(target=run)
@@ -292,6 +397,19 @@ def run_history(hist, acc, prime=True, foreign=False):
                     mech += ":after_clock_step"
                 viols.append((mech, f"history={[list(o) for o in hist]} final is_running(h{i}) res={rec['res']} model={rec['model']}"))
     case = dict(hist=[list(o) for o in hist])
+    if viols and sys_names:
+        # which of the interleaved system-wide calls does the wrong answer hang on? the same history is played again without
+        # them (objects keep their numbers: a sys op makes none): silent without => the call in between moved the answer
+        tag = ":history_with_system_wide_calls"
+        if blame and prime:
+            def silent_without(names):
+                scratch = harness.Acc(max_samples=0)
+                run_history([o for o in hist if not (o[0] == "sys" and o[1] in names)], scratch, foreign=foreign, blame=False)
+                return not scratch.violations
+            if silent_without(sys_names):
+                alone = [n for n in sys_names if silent_without([n])]
+                tag = f":only_with_{alone[0]}()_in_between" if len(alone) == 1 else ":only_with_system_wide_calls_in_between"
+        viols = [(m + tag, d) for m, d in viols]
     if any(o[0] == "epoch0" for o in hist):
         viols = [(m + ":boot_time_zero", d) for m, d in viols]
     if foreign:
@@ -343,6 +461,11 @@ def run_fresh(shard, acc):
     import tempfile
     hs = fresh_histories()
     rng = harness.rng_for(shard["seed"], "c02fresh")
+    # a system-wide call as the very first psutil call of the program (nothing cached, no boot time seen yet), or as the
+    # first one after the clock step; which calls: drawn per seed
+    for n in rng.sample(SYS_NAMES, shard.get("nsys", 3)):
+        hs.append([("sys", n), ("spawn", PID, False), ("new", PID), ("step", rng.choice([-3600, 300, 86400])), ("sys", n), ("new", PID), ("isrun", 0), ("cmp",)])
+        hs.append([("spawn", PID, False), ("iter", "keep"), ("step", rng.choice([-300, 7, 3600])), ("sys", n), ("iter", "keep"), ("new", PID), ("isrun", 0), ("cmp",)])
     for _ in range(shard.get("nrand", 8)):
         hs.append(gen_random(rng))
     for h in hs:
@@ -476,12 +599,15 @@ def plan(tier, seed):
     depth = 5 if tier == "quick" else 6
     nrand = 36000 if tier == "quick" else 500000
     nparts = 16 if tier == "quick" else 48
-    shards = [dict(kind="fresh", seed=seed, nrand=8 if tier == "quick" else 200),
+    shards = [dict(kind="fresh", seed=seed, nrand=8 if tier == "quick" else 200, nsys=3 if tier == "quick" else len(SYS_NAMES)),
               dict(kind="live", rounds=1 if tier == "quick" else 4, timeout=1500)]
     for i in range(nparts):
         shards.append(dict(kind="enum", depth=depth, part=i, parts=nparts))
     for s, c in harness.split_range(nrand, nparts):
         shards.append(dict(kind="rand", seed=seed, start=s, count=c))
+    nsys = 8 if tier == "quick" else 24
+    for i in range(nsys):
+        shards.append(dict(kind="sysenum", depth=4 if tier == "quick" else 5, part=i, parts=nsys))
     return shards
 
 
@@ -508,6 +634,14 @@ def run_shard(shard):
             if i % shard["parts"] == shard["part"]:
                 run_history(h, acc)
         acc.exhaustive = True
+    elif k == "sysenum":
+        hs = enum_sys_histories(shard["depth"])
+        acc.extra["system_wide_calls"] = SYS_NAMES
+        acc.extra["enumerated_system_wide_call_histories_depth"] = shard["depth"]
+        acc.extra["enumerated_system_wide_call_histories_total"] = len(hs)
+        for i, h in enumerate(hs):
+            if i % shard["parts"] == shard["part"]:
+                run_history(h, acc)
     elif k == "rand":
         for i in range(shard["start"], shard["start"] + shard["count"]):
             h_ = gen_random(harness.rng_for(shard["seed"], "c02", i))
